@@ -55,7 +55,25 @@ def _is_scope_subselect(e, site, bp):
 
 def _events_level_scoped(lvl, site, bp):
     if lvl.has_or:
-        return None, "WHERE contains OR"
+        # a AND b OR c  ==  (a AND b) OR c : the rows are those of ANY disjunct, so every disjunct must be scoped on its own
+        groups, cur = [], []
+        for c in lvl.where:
+            if c.conj == "OR" and cur:
+                groups.append(cur)
+                cur = []
+            cur.append(c)
+        groups.append(cur)
+
+        class _L:
+            pass
+
+        for gi, grp in enumerate(groups):
+            sub = _L()
+            sub.has_or, sub.where = False, grp
+            ok, why = _events_level_scoped(sub, site, bp)
+            if not ok:
+                return False, f"the WHERE is a disjunction (AND binds tighter than OR) and its alternative `{' AND '.join(c.text() for c in grp)[:80]}` is not restricted to the bucket: {why}"
+        return True, ""
     why = "no conjunct restricts bucketrow to the addressed bucket"
     for c in lvl.where:
         col, other = (c.left, c.right) if (c.left.kind == "col" and c.left.name == "bucketrow") else (c.right, c.left)
@@ -554,6 +572,17 @@ def instance_state(prog, rep, rule="INSTANCE-STATE"):
         rep.violation(rule, ci.name, f"{ci.name}.{a}", f"`{a} = {norm(v)}` is bound at class level and written through self: every {ci.name} instance in the process shares this one object, so buckets, events or cached keys of one datastore show up in, are overwritten by, or are deleted through another", f"{ci.mod.relpath}:{v.lineno}")
     if not shared:
         rep.ok(rule, "aw_datastore", "class-level containers", "none that instances write into", None)
+    # the keyed containers are plain mappings: with a defaulting mapping (defaultdict, a dict subclass with __missing__ or with
+    # rewritten keys) a mere READ of an unknown / deleted bucket creates an entry, and two different ids can name one entry
+    for cname in STORAGE_CLASSES + ("Datastore",):
+        ci = prog.cls(cname)
+        for init, n in [(m_, n_) for m_ in ci.methods.values() for n_ in walk_own(m_.node)]:
+            if isinstance(n, ast.Assign) and len(n.targets) == 1 and isinstance(n.targets[0], ast.Attribute) and norm(n.targets[0].value) == "self" and isinstance(n.value, ast.Call):
+                fn = norm(n.value.func).split(".")[-1]
+                sub = prog.class_by_name.get(fn, [])
+                dictish = fn in ("defaultdict", "Counter", "ChainMap") or any(any(b.split("[")[0].split(".")[-1] in ("dict", "Dict", "UserDict", "defaultdict", "OrderedDict", "MutableMapping") for b in c.base_names) for c in sub)
+                if dictish:
+                    rep.violation(rule, ci.name, f"self.{n.targets[0].attr} = {norm(n.value)[:40]}", f"`self.{n.targets[0].attr}` is a {fn}: looking a key up can create or alias an entry (defaultdict makes a read of a deleted / unknown bucket re-create it; a dict subclass that rewrites keys makes two ids one bucket): the listing then holds ids that were never created, or an operation addressed to one id lands on another", init.loc(n))
 
 
 # ---------------------------------------------------------------------------
